@@ -189,6 +189,14 @@ def check(an: Analysis) -> None:
                     vals = sc.values_of(arg.id)
                     if len(vals) == 1:
                         arg = unwrap(vals[0])
+                elif isinstance(arg, ast.Name):
+                    # the parameter re-bound on this path (`if value is MISSING: value = self.default`)
+                    rebinds_ = [n for n in gv.nodes if n.kind == "stmt" and n.id in sc.reach and isinstance(n.ast, (ast.Assign, ast.AnnAssign)) and getattr(n.ast, "value", None) is not None and is_name(n.ast.targets[0] if isinstance(n.ast, ast.Assign) else n.ast.target, vp)]
+                    if rebinds_:
+                        unbound_ = gv.search([gv.entry], lambda x, r=r: x is r, skip_node=lambda x: x in rebinds_, skip_edge=sc.skip, include_start=True) is not None
+                        reach_ = [dn for dn in rebinds_ if gv.search([t_ for t_, lab_ in dn.succ if lab_ not in ("exc", "reraise")], lambda x, r=r: x is r, skip_node=lambda x, dn=dn: x in rebinds_ and x is not dn, skip_edge=sc.skip, include_start=True) is not None]
+                        if not unbound_ and len(reach_) == 1:
+                            arg = unwrap(reach_[0].ast.value)  # type: ignore[union-attr]
                 ok = (dotted(arg) == "self.default" or (default_missing is True and is_name(arg, vp))) if missing else is_name(arg, vp)
             if not ok:
                 ob.fail(vf, r.ast, "validated() does not return self.validator(default if value is MISSING else value): " + ("a default would bypass validation" if missing else "a supplied value would be replaced or stored unvalidated"))
@@ -723,6 +731,12 @@ def check(an: Analysis) -> None:
     w = ga.search([ga.entry], lambda n: n.kind == "exit-return", skip_node=lambda n: n.kind == "return", skip_edge=normal_only)
     if w is not None:
         ob.fail(av, None, "attribute_validator can return None for an unsupported annotation instead of raising", CFG.show_path(w))
+    from ..engine import borrow
+    from . import c20
+
+    # C20.1: `Missing()` (which is what copy / deepcopy / pickle of the marker call) hands out the one instance - the defaults and the
+    # Missing validator compare by identity, so a second instance is a non-conforming value and never triggers a default
+    borrow(an, c20.check, {"C20.1": "C05.17"})
 
 
 def lossy_cache_uses(an: Analysis, module_prefix: str = "haiway.state"):
